@@ -2240,12 +2240,13 @@ Section MddStruct.
       rewrite (wf_inb_to _ W did eid Hlt Hin). reflexivity.
   Qed.
 
-  Theorem relax_layer_log m l m' l' :
+  Lemma relax_layer_full m l m' l' :
     1 <= ci_width inp -> wf m -> ids_ok (length (m_nodes m)) l -> NoDup l ->
     relax_layer st_eqb inp m l = (m', l') ->
     let mrg := merged_ids m l in
     let mstates := merged_states m l in
     let merged := merge rlx mstates in
+    exists mid, (In mid l \/ mid = length (m_nodes m)) /\ inb_frame mid m m' /\
     m_log m' =
       rev (flat_map (fun did => map (relax_event m merged did) (n_inb (gnode m did))) mrg)
       ++ EvMerge mstates merged :: m_log m.
@@ -2283,10 +2284,13 @@ Section MddStruct.
       assert (F2 : inb_frame rid m m2).
       { intros id _. unfold m2. rewrite (get_node_upd_node_proj (@n_inb St)) by reflexivity.
         rewrite G1. reflexivity. }
-      destruct (drop_fold_log m merged rid mrg m2 W E2 F2) as [_ [_ L3]].
+      destruct (drop_fold_log m merged rid mrg m2 W E2 F2) as [_ [F3 L3]].
       { apply Forall_forall. intros did Hd. split.
         - intros ->. apply (Hdisj _ Hin). exact Hd.
         - eapply ids_ok_In; eauto. }
+      exists rid. split; [left; apply (proj1 Ssorted); apply (proj1 (sub_firstn w1 sorted)); exact Hin|].
+      split.
+      { eapply inb_frame_trans; [exact F3|]. apply inb_frame_upd_node. intros x; split; reflexivity. }
       change (m_log (upd_node (fold_left (drop_step merged rid) mrg m2) (nth w1 sorted 0) clear_deleted_flag))
         with (m_log (fold_left (drop_step merged rid) mrg m2)).
       rewrite L3. change (m_log m2) with (m_log m1). rewrite L1. reflexivity.
@@ -2307,10 +2311,24 @@ Section MddStruct.
           assert (Hk : exists k, id - length (m_nodes m1) = S k).
           { exists (id - length (m_nodes m1) - 1). unfold mid in Hid. lia. }
           destruct Hk as [k ->]. simpl. destruct k; reflexivity. }
-      destruct (drop_fold_log m merged mid mrg m2 W E2 F2) as [_ [_ L3]].
+      destruct (drop_fold_log m merged mid mrg m2 W E2 F2) as [_ [F3 L3]].
       { apply Forall_forall. intros did Hd. pose proof (ids_ok_In _ _ _ Hmrg Hd) as Hlt.
         split; [unfold mid; rewrite N1; lia|exact Hlt]. }
+      exists mid. split; [right; exact N1|]. split; [exact F3|].
       rewrite L3. change (m_log m2) with (m_log m1). rewrite L1. reflexivity.
+  Qed.
+
+  Theorem relax_layer_log m l m' l' :
+    1 <= ci_width inp -> wf m -> ids_ok (length (m_nodes m)) l -> NoDup l ->
+    relax_layer st_eqb inp m l = (m', l') ->
+    let mrg := merged_ids m l in
+    let mstates := merged_states m l in
+    let merged := merge rlx mstates in
+    m_log m' =
+      rev (flat_map (fun did => map (relax_event m merged did) (n_inb (gnode m did))) mrg)
+      ++ EvMerge mstates merged :: m_log m.
+  Proof.
+    intros Hw W Hl Hnd H. destruct (relax_layer_full m l m' l' Hw W Hl Hnd H) as [mid [_ [_ L]]]. exact L.
   Qed.
 
   (* C12's reading of the previous theorem *)
@@ -3077,6 +3095,528 @@ Section MddStruct.
     assert (Hlt : eid < length (m_edges m)) by (eapply ids_ok_In; [apply (wf_inb_range m id W Hid)|exact Hin]).
     split; [apply get_edge_nth_error; exact Hlt|]. split; [apply (wf_inb_to _ W); auto|].
     apply wf_edge_from; auto.
+  Qed.
+
+  (* ================================================================ (3'') relax is only called on genuine arcs
+     (C12: "relax(src,dst,merged,d,cost) has dst = transition(src,d), d in the domain of its variable
+     at src, cost = the transition cost").  An arc is genuine when it was created by _branch_on and
+     not redirected; [st_eqb] identifies the target with the state returned by [transition]. *)
+  Definition genuine (m : mddT) (eid : nat) : Prop :=
+    let e := get_edge m eid in
+    let src := state_of m (e_from e) in
+    let d := e_dec e in
+    let s' := transition pb src d in
+    In (d_val d) (domain pb (d_var d) src) /\ e_cost e = transition_cost pb src s' d /\
+    (state_of m (e_to e) = s' \/ st_eqb (state_of m (e_to e)) s' = true).
+
+  Definition inb_genuine (m : mddT) (L : list nat) : Prop :=
+    forall id eid, In id L -> In eid (n_inb (gnode m id)) -> genuine m eid.
+
+  Lemma genuine_ext m a eid :
+    wf m -> ext m a -> eid < length (m_edges m) -> genuine m eid -> genuine a eid.
+  Proof.
+    intros W E Hlt. unfold genuine. rewrite (get_edge_ext m a eid E Hlt).
+    pose proof (wf_edges _ W) as FE. rewrite Forall_forall in FE.
+    destruct (FE (get_edge m eid)) as [Hfrom Hto]; [apply nth_In; exact Hlt|].
+    rewrite !(ext_state _ _ E) by assumption. auto.
+  Qed.
+
+  (* [quiet m m']: no arc was added and no inbound list changed *)
+  Definition quiet (m m' : mddT) : Prop :=
+    m_edges m' = m_edges m /\ forall id, n_inb (gnode m' id) = n_inb (gnode m id).
+
+  Lemma quiet_refl m : quiet m m.
+  Proof. split; auto. Qed.
+  Lemma quiet_trans a b c : quiet a b -> quiet b c -> quiet a c.
+  Proof. intros [A1 A2] [B1 B2]. split; [congruence|]. intros id. rewrite B2, A2. reflexivity. Qed.
+  Lemma quiet_frame m m' : m_nodes m' = m_nodes m -> m_edges m' = m_edges m -> quiet m m'.
+  Proof. intros Hn He. split; auto. intros id. unfold get_node. rewrite Hn. reflexivity. Qed.
+  Lemma quiet_upd_node m k f : keeps_links f -> quiet m (upd_node m k f).
+  Proof.
+    intros Hf. split; [reflexivity|]. intros id.
+    apply (get_node_upd_node_proj (@n_inb St)). intros n; apply Hf.
+  Qed.
+  Lemma quiet_r_upd_node m a k f : quiet m a -> keeps_links f -> quiet m (upd_node a k f).
+  Proof. intros H1 H2. eapply quiet_trans; [exact H1|apply quiet_upd_node; exact H2]. Qed.
+  Lemma quiet_fold {B} (f : mddT -> B -> mddT) l m a :
+    quiet m a -> (forall a x, quiet a (f a x)) -> quiet m (fold_left f l a).
+  Proof.
+    intros H1 H2. apply (fold_left_inv (fun a => quiet m a)); auto.
+    intros b x _ Hb. eapply quiet_trans; eauto.
+  Qed.
+
+  Lemma quiet_cache_get m s d m' r : cache_get st_eqb inp m s d = (m', r) -> quiet m m'.
+  Proof.
+    unfold cache_get. destruct (ci_use_cache inp); [destruct (get_threshold _ _ _ _)|];
+      intros H; inversion H; subst; apply quiet_frame; reflexivity.
+  Qed.
+  Lemma quiet_dom_query m s d v m' r : dom_query inp m s d v = (m', r) -> quiet m m'.
+  Proof.
+    unfold dom_query. destruct (ci_domrule inp) as [[[[key nd] coord] usev]|];
+      [destruct (is_dominated_or_insert _ _ _ _ _ _ _ _ _) as [[st' r']|]|];
+      intros H; inversion H; subst; apply quiet_frame; reflexivity.
+  Qed.
+
+  Lemma quiet_filter_with_cache l : forall m m' l',
+    filter_with_cache st_eqb inp m l = (m', l') -> quiet m m'.
+  Proof.
+    induction l as [|id l IH]; simpl; intros m m' l' H.
+    - inversion H; subst; apply quiet_refl.
+    - destruct (cache_get _ _ _ _ _) as [m1 th] eqn:Hc. apply quiet_cache_get in Hc.
+      destruct th as [t|].
+      + destruct (_ >? _)%Z.
+        * destruct (filter_with_cache _ _ m1 l) as [m2 r] eqn:Hf. inversion H; subst.
+          eapply quiet_trans; eauto.
+        * eapply quiet_trans; [|eapply IH; exact H].
+          apply quiet_r_upd_node; [exact Hc|intros n; split; reflexivity].
+      + destruct (filter_with_cache _ _ m1 l) as [m2 r] eqn:Hf. inversion H; subst.
+        eapply quiet_trans; eauto.
+  Qed.
+
+  Lemma quiet_dom_retain l : forall m m' l', dom_retain inp m l = (m', l') -> quiet m m'.
+  Proof.
+    induction l as [|id l IH]; simpl; intros m m' l' H.
+    - inversion H; subst; apply quiet_refl.
+    - destruct (fl_is_exact _).
+      + destruct (dom_query _ _ _ _ _) as [m1 r] eqn:Hq. apply quiet_dom_query in Hq.
+        destruct (dc_dominated r).
+        * eapply quiet_trans; [|eapply IH; exact H].
+          apply quiet_r_upd_node; [exact Hq|intros n; split; reflexivity].
+        * destruct (dom_retain _ m1 l) as [m2 k] eqn:Hf. inversion H; subst.
+          eapply quiet_trans; eauto.
+      + destruct (dom_retain _ m l) as [m2 k] eqn:Hf. inversion H; subst. eauto.
+  Qed.
+
+  Lemma quiet_prefilter m l m' l' : prefilter m l = (m', l') -> quiet m m'.
+  Proof.
+    unfold prefilter. destruct (_ <? _); [apply quiet_filter_with_cache|].
+    intros H; inversion H; subst; apply quiet_refl.
+  Qed.
+
+  Lemma quiet_restrict_layer m l m' l' : restrict_layer inp m l = (m', l') -> quiet m m'.
+  Proof.
+    unfold restrict_layer. intros H; inversion H; subst. unfold mark_deleted.
+    apply quiet_fold.
+    - apply quiet_frame; [apply note_squash_nodes|apply note_squash_edges].
+    - intros a x. apply quiet_upd_node. intros n; split; reflexivity.
+  Qed.
+
+  Lemma inb_genuine_quiet m a L :
+    wf m -> ext m a -> quiet m a -> ids_ok (length (m_nodes m)) L ->
+    inb_genuine m L -> inb_genuine a L.
+  Proof.
+    intros W E [_ Q] HL G id eid Hid Hin. rewrite Q in Hin.
+    apply (genuine_ext m a eid W E).
+    - eapply ids_ok_In; [apply (wf_inb_range m id W)|exact Hin]. eapply ids_ok_In; eauto.
+    - eapply G; eauto.
+  Qed.
+
+  Lemma inb_genuine_incl m L L' : incl L' L -> inb_genuine m L -> inb_genuine m L'.
+  Proof. intros H G id eid Hid. apply G. apply H. exact Hid. Qed.
+
+  Lemma append_edge_inb_cases m e x eid :
+    In eid (n_inb (gnode (append_edge inp m e) x)) ->
+    (eid = length (m_edges m) /\ x = e_to e) \/ In eid (n_inb (gnode m x)).
+  Proof.
+    intros Hin. unfold get_node in Hin. simpl m_nodes in Hin.
+    destruct (Nat.eq_dec (e_to e) x) as [Heq|Hne].
+    - subst x. destruct (Nat.lt_ge_cases (e_to e) (length (m_nodes m))) as [Hlt|Hge].
+      + rewrite nth_upd_nth_same in Hin by exact Hlt. simpl in Hin.
+        destruct Hin as [Hin|Hin]; [left; split; auto|right; exact Hin].
+      + rewrite upd_nth_oob in Hin by exact Hge. right; exact Hin.
+    - rewrite nth_upd_nth_other in Hin by exact Hne. right; exact Hin.
+  Qed.
+
+  Lemma add_node_inb (m : mddT) n x :
+    n_inb n = [] -> n_inb (gnode (with_nodes m (m_nodes m ++ [n])) x) = n_inb (gnode m x).
+  Proof.
+    intros Hn. unfold get_node.
+    change (m_nodes (with_nodes m (m_nodes m ++ [n]))) with (m_nodes m ++ [n]).
+    destruct (Nat.lt_ge_cases x (length (m_nodes m))) as [Hlt|Hge].
+    - rewrite app_nth1 by exact Hlt. reflexivity.
+    - rewrite app_nth2 by exact Hge. rewrite (nth_overflow (m_nodes m)) by exact Hge.
+      destruct (x - length (m_nodes m)) as [|k]; simpl; [rewrite Hn; reflexivity|].
+      destruct k; reflexivity.
+  Qed.
+
+  Lemma branch_on_inb_cases m id d x eid :
+    In eid (n_inb (gnode (branch_on st_eqb inp m id d) x)) ->
+    eid = length (m_edges m) \/ In eid (n_inb (gnode m x)).
+  Proof.
+    unfold branch_on.
+    set (s := state_of m id). set (s' := transition pb s d). set (c := transition_cost pb s s' d).
+    set (m2 := add_log (add_log m (EvTransition s d s')) (EvCost s s' d c)).
+    destruct (find_next st_eqb inp m2 s') as [nid|].
+    - intros H. apply append_edge_inb_cases in H. destruct H as [[H _]|H]; [left; exact H|right; exact H].
+    - set (n := {| n_state := s'; n_vtop := _ |}).
+      intros H.
+      match type of H with In _ (n_inb (get_node inp (with_next ?a ?b) x)) =>
+        change (In eid (n_inb (gnode a x))) in H end.
+      apply append_edge_inb_cases in H. destruct H as [[H _]|H]; [left; exact H|right].
+      rewrite add_node_inb in H by reflexivity. exact H.
+  Qed.
+
+  Lemma branch_on_next_cases m id d x :
+    In x (m_next (branch_on st_eqb inp m id d)) -> In x (m_next m) \/ length (m_nodes m) <= x.
+  Proof.
+    unfold branch_on.
+    match goal with |- context [find_next ?a ?b ?c ?e] => destruct (find_next a b c e) end.
+    - rewrite append_edge_next. simpl. auto.
+    - simpl m_next. intros H. apply in_app_or in H. destruct H as [H|[<-|[]]]; [left; exact H|right].
+      simpl. lia.
+  Qed.
+
+  Lemma branch_on_genuine m id d :
+    wf m -> id < length (m_nodes m) ->
+    In (d_val d) (domain pb (d_var d) (state_of m id)) ->
+    inb_genuine m (m_next m) ->
+    inb_genuine (branch_on st_eqb inp m id d) (m_next (branch_on st_eqb inp m id d)).
+  Proof.
+    intros W Hid Hdom G x eid Hx Hin.
+    pose proof (ext_branch_on m id d) as E.
+    apply branch_on_inb_cases in Hin. destruct Hin as [->|Hin].
+    - (* the new arc *)
+      destruct (branch_on_edge m id d) as [e [He [Hfrom [Hdec [Hcost [_ Hto]]]]]].
+      unfold genuine.
+      assert (Hge : get_edge (branch_on st_eqb inp m id d) (length (m_edges m)) = e).
+      { unfold get_edge. rewrite He. rewrite app_nth2 by lia. rewrite Nat.sub_diag. reflexivity. }
+      rewrite Hge, Hfrom, Hdec, Hcost. rewrite (ext_state _ _ E) by exact Hid. auto.
+    - apply branch_on_next_cases in Hx. destruct Hx as [Hx|Hx].
+      + apply (genuine_ext m _ eid W E).
+        * eapply ids_ok_In; [apply (inb_range_any m x W)|exact Hin].
+        * eapply G; eauto.
+      + exfalso. unfold get_node in Hin. rewrite nth_overflow in Hin by exact Hx. destruct Hin.
+  Qed.
+
+  Lemma inb_genuine_frame m m' L :
+    m_nodes m' = m_nodes m -> m_edges m' = m_edges m -> inb_genuine m L -> inb_genuine m' L.
+  Proof.
+    intros Hn He G id eid Hid Hin. unfold get_node in Hin. rewrite Hn in Hin.
+    specialize (G id eid Hid Hin). unfold genuine, get_edge, get_node in *. rewrite Hn, He. exact G.
+  Qed.
+
+  Lemma expand_node_genuine var m id :
+    wf m -> id < length (m_nodes m) -> inb_genuine m (m_next m) ->
+    inb_genuine (expand_node st_eqb inp var m id) (m_next (expand_node st_eqb inp var m id)).
+  Proof.
+    intros W Hid G. unfold expand_node.
+    set (s := state_of m id).
+    set (m1 := upd_node m id _).
+    assert (W1 : wf m1) by (apply wf_upd_node; [intros n; split; reflexivity|exact W]).
+    assert (E1 : ext m m1) by (apply ext_upd_node; reflexivity).
+    assert (G1 : inb_genuine m1 (m_next m1)).
+    { apply (inb_genuine_quiet m m1 (m_next m) W E1); [|apply (wf_next _ W)|exact G].
+      apply quiet_upd_node. intros n; split; reflexivity. }
+    destruct (_ >? _)%Z; [|exact G1].
+    set (m2 := add_log m1 (EvDomain var s)).
+    assert (P : forall a, wf a /\ id < length (m_nodes a) /\ state_of a id = s /\ inb_genuine a (m_next a) ->
+                forall val, In val (domain pb var s) ->
+                let a' := branch_on st_eqb inp a id {| d_var := var; d_val := val |} in
+                wf a' /\ id < length (m_nodes a') /\ state_of a' id = s /\ inb_genuine a' (m_next a')).
+    { intros a [Wa [Ha [Sa Ga]]] val Hval a'.
+      pose proof (ext_branch_on a id {| d_var := var; d_val := val |}) as Ea. fold a' in Ea.
+      split; [apply wf_branch_on; auto|]. split; [pose proof (ext_nodes _ _ Ea); lia|].
+      split; [rewrite (ext_state _ _ Ea) by exact Ha; exact Sa|].
+      apply branch_on_genuine; auto. simpl. rewrite Sa. exact Hval. }
+    apply (fold_left_inv (fun a => wf a /\ id < length (m_nodes a) /\ state_of a id = s /\ inb_genuine a (m_next a))).
+    - intros a val Hval Ha. apply P; assumption.
+    - split; [apply wf_add_log; exact W1|].
+      split; [change (id < length (m_nodes m1)); pose proof (ext_nodes _ _ E1); lia|].
+      split; [change (state_of m1 id = s); apply (ext_state _ _ E1); exact Hid|].
+      apply (inb_genuine_frame m1 m2); [reflexivity|reflexivity|exact G1].
+  Qed.
+
+  Lemma fold_expand_genuine var l : forall m,
+    wf m -> ids_ok (length (m_nodes m)) l -> inb_genuine m (m_next m) ->
+    let m' := fold_left (expand_node st_eqb inp var) l m in inb_genuine m' (m_next m').
+  Proof.
+    induction l as [|id l IH]; simpl; intros m W Hl G; [exact G|].
+    inversion Hl as [|? ? Hid Hl']; subst. apply IH.
+    - apply wf_expand_node; auto.
+    - eapply ids_ok_mono; [|exact Hl']. apply (ext_nodes _ _ (ext_expand_node var m id)).
+    - apply expand_node_genuine; auto.
+  Qed.
+
+  Definition relax_genuine (ev : event St) : Prop :=
+    match ev with
+    | EvRelax src dst mg d c rc =>
+        In (d_val d) (domain pb (d_var d) src) /\
+        c = transition_cost pb src (transition pb src d) d /\
+        (dst = transition pb src d \/ st_eqb dst (transition pb src d) = true)
+    | _ => True
+    end.
+
+  Lemma relax_genuine_kinds ks k : ~ In KRelax ks -> Forall (kind_in ks) k -> Forall relax_genuine k.
+  Proof.
+    intros Hn F. eapply Forall_impl; [|exact F]. intros ev Hin.
+    destruct ev; simpl; auto. exfalso; apply Hn; exact Hin.
+  Qed.
+
+  Lemma merged_ids_incl m l : incl (merged_ids m l) l.
+  Proof.
+    unfold merged_ids. eapply incl_tran; [apply (proj1 (sub_skipn _ _))|apply (proj1 (sub_sort_by _ _))].
+  Qed.
+
+  Lemma squash_genuine m l m' l' :
+    wf m -> ids_ok (length (m_nodes m)) l -> NoDup l -> inb_genuine m l ->
+    squash_if_needed st_eqb inp m l = (m', l') ->
+    logext relax_genuine m m' /\
+    (forall id, id < length (m_nodes m) -> ~ In id l -> n_inb (gnode m' id) = n_inb (gnode m id)).
+  Proof.
+    intros W Hl Hnd G H.
+    assert (Hnone : (m', l') = (m, l) -> logext relax_genuine m m' /\
+      (forall id, id < length (m_nodes m) -> ~ In id l -> n_inb (gnode m' id) = n_inb (gnode m id))).
+    { intros E; inversion E; subst. split; [apply logext_refl|auto]. }
+    unfold squash_if_needed in H. destruct (ci_type inp) eqn:Ht.
+    - auto.
+    - destruct (ci_width inp <? length l) eqn:Hlt; simpl in H; [|auto].
+      destruct (1 <? length (m_layers m)) eqn:Hlay; [|auto].
+      destruct (ci_width inp) as [|w1] eqn:Hw.
+      + unfold relax_layer in H. rewrite Hw in H. inversion H; subst. split.
+        * apply logext_same. simpl. apply note_squash_log.
+        * intros id _ _. change (gnode (set_crash (note_squash inp m)) id) with (gnode (note_squash inp m) id).
+          rewrite note_squash_gnode. reflexivity.
+      + assert (Hw1 : 1 <= ci_width inp) by lia. rewrite <- Hw in *.
+        destruct (relax_layer_protocol m l m' l' Hw1 W Hl Hnd H) as [evs [E P]].
+        destruct (relax_layer_full m l m' l' Hw1 W Hl Hnd H) as [mid [Hmid [F _]]].
+        split.
+        * exists (evs ++ [EvMerge (merged_states m l) (merge rlx (merged_states m l))]).
+          split; [rewrite E, <- app_assoc; reflexivity|].
+          apply Forall_app. split; [|constructor; simpl; auto].
+          apply Forall_forall. intros ev Hev.
+          destruct (P ev Hev) as [did [eid [Hd [He [_ Hrest]]]]]. cbv zeta in Hrest.
+          destruct Hrest as [_ [_ [_ ->]]].
+          assert (Gd : genuine m eid) by (apply (G did eid); [apply (merged_ids_incl m l did Hd)|exact He]).
+          unfold genuine in Gd. cbv zeta in Gd. destruct Gd as [A [B C]]. simpl. auto.
+        * intros id Hid Hnin. apply F. destruct Hmid as [Hmid| ->]; [|lia].
+          intros ->. apply Hnin. exact Hmid.
+    - destruct (_ <? _); [|auto]. split.
+      + apply logext_same. eapply restrict_layer_log; eauto.
+      + intros id _ _. apply (proj2 (quiet_restrict_layer _ _ _ _ H)).
+  Qed.
+
+  (* m_next is not touched by squash *)
+  Lemma note_squash_next m : m_next (note_squash inp m) = m_next m.
+  Proof. unfold note_squash. destruct (is_pooled _); [reflexivity|]. destruct (m_lel m); reflexivity. Qed.
+
+  Lemma drop_step_next merged mid (m : mddT) did : m_next (drop_step merged mid m did) = m_next m.
+  Proof.
+    unfold drop_step. rewrite redirect_edges_fold.
+    rewrite (fold_left_proj (@m_next St)); [reflexivity|].
+    intros a x. unfold redirect_step. rewrite append_edge_next. reflexivity.
+  Qed.
+
+  Lemma squash_next m l m' l' : squash_if_needed st_eqb inp m l = (m', l') -> m_next m' = m_next m.
+  Proof.
+    unfold squash_if_needed. intros H.
+    assert (Hnone : (m', l') = (m, l) -> m_next m' = m_next m) by (intros E; inversion E; reflexivity).
+    destruct (ci_type inp); [auto| |].
+    - destruct (_ && _); [|auto].
+      destruct (ci_width inp) as [|w1] eqn:Hw.
+      + unfold relax_layer in H. rewrite Hw in H. inversion H; subst. simpl. apply note_squash_next.
+      + rewrite (relax_layer_unfold m l w1 Hw) in H. cbv zeta in H.
+        match type of H with context [find ?f ?k] => destruct (find f k) end;
+          apply pair_eq_inv in H; destruct H as [<- _].
+        * simpl m_next. rewrite (fold_left_proj (@m_next St)) by (intros; apply drop_step_next).
+          simpl. apply note_squash_next.
+        * rewrite (fold_left_proj (@m_next St)) by (intros; apply drop_step_next).
+          simpl. apply note_squash_next.
+    - destruct (_ <? _); [|auto]. unfold restrict_layer in H. inversion H; subst.
+      unfold mark_deleted. rewrite (fold_left_proj (@m_next St)) by (intros; reflexivity).
+      apply note_squash_next.
+  Qed.
+
+  (* the three stages: the relax calls are made on genuine arcs, and the nodes that stay in the pool
+     keep genuine inbound arcs *)
+  Lemma stages_genuine m curr m1 l1 m2 l2 m3 l3 :
+    prefilter m curr = (m1, l1) -> filter_with_dominance inp m1 l1 = (m2, l2) ->
+    squash_if_needed st_eqb inp m2 l2 = (m3, l3) ->
+    wf m -> ids_ok (length (m_nodes m)) curr -> NoDup curr ->
+    inb_genuine m curr -> inb_genuine m (m_next m) ->
+    (forall x, In x (m_next m) -> ~ In x curr) ->
+    logext relax_genuine m m3 /\ inb_genuine m3 (m_next m3).
+  Proof.
+    intros H1 H2 H3 W Hc Hnd Gc Gn Hdisj.
+    pose proof (ext_prefilter _ _ _ _ H1) as E1.
+    pose proof (ext_filter_with_dominance _ _ _ _ H2) as E2.
+    pose proof (ext_squash_if_needed _ _ _ _ H3) as E3.
+    assert (E12 : ext m m2) by (eapply ext_trans; eauto).
+    destruct (wf_prefilter _ _ _ _ H1 W) as [W1 S1].
+    destruct (wf_filter_with_dominance _ _ _ _ H2 W1) as [W2 S2].
+    assert (S12 : sub l2 curr) by (eapply sub_trans; eauto).
+    assert (Q12 : quiet m m2).
+    { eapply quiet_trans; [eapply quiet_prefilter; eauto|].
+      unfold filter_with_dominance in H2. eapply quiet_dom_retain; eauto. }
+    assert (Hn : length (m_nodes m) <= length (m_nodes m2)) by apply (ext_nodes _ _ E12).
+    assert (Il2 : ids_ok (length (m_nodes m2)) l2).
+    { eapply ids_ok_mono; [exact Hn|]. eapply ids_ok_incl; [apply S12|exact Hc]. }
+    assert (G2 : inb_genuine m2 l2).
+    { eapply inb_genuine_incl; [apply S12|]. apply (inb_genuine_quiet m m2 curr W E12 Q12 Hc Gc). }
+    destruct (squash_genuine m2 l2 m3 l3 W2 Il2 (proj2 S12 Hnd) G2 H3) as [L3 F3].
+    destruct (wf_stages _ _ _ _ _ _ _ _ H1 H2 H3 W Hc Hnd) as [W3 [_ [_ [_ [_ Hnext2]]]]].
+    split.
+    - eapply logext_trans; [|exact L3].
+      assert (Nr : ~ In KRelax stage_kinds -> False) by (intros Hx; apply Hx; simpl; auto).
+      assert (L1 : logext (kind_in [KCacheGet]) m m1).
+      { unfold prefilter in H1. destruct (_ <? _); [eapply logext_filter_with_cache; eauto|].
+        inversion H1; subst; apply logext_refl. }
+      destruct L1 as [kc [Ec Fc]].
+      destruct (logext_filter_with_dominance _ _ _ _ H2) as [kd [Ed Fd]].
+      exists (kd ++ kc). split; [rewrite Ed, Ec, <- app_assoc; reflexivity|].
+      apply Forall_app. split.
+      + apply (relax_genuine_kinds [KDomQuery]); [simpl; intuition discriminate|exact Fd].
+      + apply (relax_genuine_kinds [KCacheGet]); [simpl; intuition discriminate|exact Fc].
+    - rewrite (squash_next _ _ _ _ H3), Hnext2.
+      intros x eid Hx Hin.
+      assert (Hxlt : x < length (m_nodes m)) by (eapply ids_ok_In; [apply (wf_next _ W)|exact Hx]).
+      rewrite F3 in Hin.
+      + rewrite (proj2 Q12) in Hin.
+        apply (genuine_ext m m3 eid W (ext_trans _ _ _ E12 E3)).
+        * eapply ids_ok_In; [apply (wf_inb_range m x W Hxlt)|exact Hin].
+        * eapply Gn; eauto.
+      + lia.
+      + intros Hl2. apply (Hdisj x Hx). apply (proj1 S12). exact Hl2.
+  Qed.
+
+  Lemma pooled_start_genuine m var :
+    wf m -> inb_genuine m (m_next m) ->
+    let m0 := pooled_start m var in
+    inb_genuine m0 (pooled_curr m var) /\ inb_genuine m0 (m_next m0) /\
+    (forall x, In x (m_next m0) -> ~ In x (pooled_curr m var)).
+  Proof.
+    intros W G. unfold pooled_start.
+    set (m1 := fold_left _ (pooled_curr m var) m).
+    assert (P1 : ext m m1 /\ quiet m m1 /\ m_next m1 = m_next m /\ (forall id, state_of m1 id = state_of m id)).
+    { unfold m1.
+      apply (fold_left_inv (fun a => ext m a /\ quiet m a /\ m_next a = m_next m /\
+                                      (forall id, state_of a id = state_of m id))).
+      - intros a x _ [Ea [Qa [Na Sa]]]. split; [|split; [|split]].
+        + apply ext_r_upd_node; [exact Ea|reflexivity].
+        + apply quiet_r_upd_node; [exact Qa|intros n; split; reflexivity].
+        + exact Na.
+        + intros id. rewrite <- Sa. apply (get_node_upd_node_proj (@n_state St)). reflexivity.
+      - split; [apply ext_refl|split; [apply quiet_refl|split; [reflexivity|reflexivity]]]. }
+    destruct P1 as [E1 [Q1 [N1 S1]]].
+    assert (G1 : inb_genuine m1 (m_next m)) by (apply (inb_genuine_quiet m m1 _ W E1 Q1 (wf_next _ W) G)).
+    cbv zeta. split; [|split].
+    - apply (inb_genuine_frame m1); [reflexivity|reflexivity|].
+      eapply inb_genuine_incl; [|exact G1]. unfold pooled_curr. apply incl_filter.
+    - apply (inb_genuine_frame m1); [reflexivity|reflexivity|].
+      eapply inb_genuine_incl; [|exact G1]. simpl m_next. rewrite N1. apply incl_filter.
+    - simpl m_next. rewrite N1. intros x Hx Hc. unfold pooled_curr in Hc.
+      apply filter_In in Hx. apply filter_In in Hc. destruct Hx as [_ Hx]. destruct Hc as [_ Hc].
+      rewrite S1, Hc in Hx. discriminate.
+  Qed.
+
+  Lemma loop_move_genuine m var m' ol :
+    loop_move m var = (m', ol) -> wf m -> inb_genuine m (m_next m) ->
+    logext relax_genuine m m' /\ inb_genuine m' (m_next m').
+  Proof.
+    intros H W G. unfold loop_move in H. destruct (is_pooled flv).
+    - destruct (m_next m) as [|x nx] eqn:Hn.
+      { inversion H; subst. split; [apply logext_refl|]. rewrite Hn. intros id eid []. }
+      rewrite <- Hn in *. clear Hn.
+      rewrite move_pooled_unfold in H. cbv zeta in H.
+      destruct (pooled_start_wf m var W) as [W0 L0].
+      destruct (pooled_start_genuine m var W G) as [Gc [Gn Hdisj]].
+      destruct (prefilter _ _) as [m1 l1] eqn:H1.
+      destruct (filter_with_dominance _ _ _) as [m2 l2] eqn:H2.
+      destruct (squash_if_needed _ _ _ _) as [m3 l3] eqn:H3.
+      apply pair_eq_inv in H. destruct H as [<- _].
+      destruct (stages_genuine _ _ _ _ _ _ _ _ H1 H2 H3 W0) as [L3 G3]; auto.
+      { rewrite L0. unfold pooled_curr. eapply ids_ok_incl; [apply sub_filter|apply (wf_next _ W)]. }
+      { unfold pooled_curr. apply NoDup_filter. apply (wf_next_nodup _ W). }
+      assert (L03 : logext relax_genuine m m3).
+      { destruct L3 as [k [E F]]. exists k. split; [rewrite E, pooled_start_log; reflexivity|exact F]. }
+      match goal with |- context [match ?c with [] => _ | _ => _ end] => destruct c end.
+      + split; assumption.
+      + split; [exact L03|]. apply (inb_genuine_frame m3); [reflexivity|reflexivity|exact G3].
+    - rewrite move_clean_unfold in H.
+      assert (W0 : wf (with_next m [])) by (apply wf_with_next; [exact W|constructor|constructor]).
+      destruct (m_next m) as [|x nx] eqn:Hn.
+      { inversion H; subst. split; [apply logext_same; reflexivity|]. intros id eid []. }
+      rewrite <- Hn in *. clear Hn.
+      destruct (prefilter _ _) as [m1 l1] eqn:H1.
+      destruct (filter_with_dominance _ _ _) as [m2 l2] eqn:H2.
+      destruct (squash_if_needed _ _ _ _) as [m3 l3] eqn:H3.
+      apply pair_eq_inv in H. destruct H as [<- _].
+      destruct (stages_genuine _ _ _ _ _ _ _ _ H1 H2 H3 W0) as [L3 G3].
+      { simpl. apply (wf_next _ W). }
+      { apply (wf_next_nodup _ W). }
+      { apply (inb_genuine_frame m); [reflexivity|reflexivity|exact G]. }
+      { intros id eid []. }
+      { intros y []. }
+      split.
+      + destruct L3 as [k [E F]]. exists k. split; [exact E|exact F].
+      + apply (inb_genuine_frame m3); [reflexivity|reflexivity|exact G3].
+  Qed.
+
+  Theorem layer_loop_relax_genuine : forall fuel m m' e,
+    layer_loop st_eqb inp fuel m = (m', e) -> wf m -> inb_genuine m (m_next m) ->
+    logext relax_genuine m m'.
+  Proof.
+    induction fuel as [|fuel IH]; intros m m' e H W G.
+    - simpl in H. inversion H; subst. apply logext_refl.
+    - rewrite layer_loop_iteration in H. cbv zeta in H.
+      set (sts := map (fun id => state_of m id) (m_next m)) in *.
+      destruct (next_variable pb (m_curr_depth m) sts) as [var|].
+      2:{ inversion H; subst. apply logext_add_log. simpl. auto. }
+      set (m0 := add_log m (EvNextVar (m_curr_depth m) sts (Some var))) in *.
+      set (m1 := with_polls m0 (S (m_polls m0))) in *.
+      assert (W1 : wf m1) by (apply wf_with_polls, wf_add_log, W).
+      assert (G1 : inb_genuine m1 (m_next m1)) by (apply (inb_genuine_frame m); [reflexivity|reflexivity|exact G]).
+      assert (L01 : logext relax_genuine m m1).
+      { exists [EvNextVar (m_curr_depth m) sts (Some var)]. split; [reflexivity|]. constructor; simpl; auto. }
+      destruct (_ && _).
+      { inversion H; subst. exact L01. }
+      destruct (loop_move m1 var) as [m2 ol] eqn:Hmv.
+      destruct (wf_loop_move _ _ _ _ Hmv W1) as [W2 Hl].
+      destruct (loop_move_genuine _ _ _ _ Hmv W1 G1) as [L2 G2].
+      destruct ol as [l|].
+      2:{ inversion H; subst. eapply logext_trans; eauto. }
+      destruct (Hl l eq_refl) as [Il Nl].
+      set (m3 := fold_left (expand_node st_eqb inp var) l m2) in *.
+      assert (L3 : logext relax_genuine m2 m3).
+      { destruct (logext_fold_expand var l m2) as [k3 [E3 F3]]. exists k3. split; [exact E3|].
+        apply (relax_genuine_kinds expand_kinds); [simpl; intuition discriminate|exact F3]. }
+      apply IH in H.
+      + eapply logext_trans; [exact L01|]. eapply logext_trans; [exact L2|].
+        eapply logext_trans; [exact L3|]. destruct H as [k [E F]]. exists k. split; [exact E|exact F].
+      + apply wf_with_depth. apply wf_fold_expand; auto.
+      + apply (inb_genuine_frame m3); [reflexivity|reflexivity|].
+        apply (fold_expand_genuine var l m2 W2 Il G2).
+  Qed.
+
+  (* C12, relax clause, for a whole compilation: every logged relax call was made on an arc created by
+     _branch_on whose decision lies in the domain enumerated at its source *)
+  Theorem compile_relax_genuine tb tb2 c ds polls m o :
+    compile st_eqb inp tb tb2 c ds polls = (m, o) -> Forall relax_genuine (m_log m).
+  Proof.
+    unfold compile. destruct (layer_loop _ _ _ _) as [m1 e] eqn:Hl.
+    apply layer_loop_relax_genuine in Hl.
+    - destruct Hl as [k [E F]]. rewrite initialize_log, app_nil_r in E. rewrite <- E in F.
+      destruct e; intros H; inversion H; subst; auto.
+      destruct (logext_finalize tb tb2 m1) as [kf [Ef Ff]]. rewrite Ef.
+      apply Forall_app. split; [|exact F].
+      apply (relax_genuine_kinds [KCacheUpd]); [simpl; intuition discriminate|exact Ff].
+    - apply wf_initialize.
+    - intros id eid Hid Hin. simpl in Hid. destruct Hid as [<-|[]].
+      unfold get_node in Hin. simpl in Hin. destruct Hin.
+  Qed.
+
+  (* with a sound state equality the target of a relaxed arc is exactly transition(src, d) *)
+  Corollary compile_relax_genuine_sound tb tb2 c ds polls m o :
+    (forall a b, st_eqb a b = true -> a = b) ->
+    compile st_eqb inp tb tb2 c ds polls = (m, o) ->
+    forall src dst mg d cost rc, In (EvRelax src dst mg d cost rc) (m_log m) ->
+      dst = transition pb src d /\ In (d_val d) (domain pb (d_var d) src) /\
+      cost = transition_cost pb src dst d.
+  Proof.
+    intros Hs H src dst mg d cost rc Hin.
+    pose proof (compile_relax_genuine _ _ _ _ _ _ _ H) as F. rewrite Forall_forall in F.
+    specialize (F _ Hin). simpl in F. destruct F as [A [B C]].
+    assert (Hd : dst = transition pb src d) by (destruct C as [C|C]; [exact C|apply Hs; exact C]).
+    split; [exact Hd|]. split; [exact A|]. rewrite Hd. exact B.
   Qed.
 
 End MddStruct.
